@@ -97,8 +97,6 @@ def _run_task(args):
     st = ex.stats
     res.update(paths=st['paths'], reached=st['reached'], branches=st['branches'], queries=st['queries'],
                solver_s=round(st['solver_s'],4), checks=st['checks'], samples=ex.samples[:3])
-    if res['verdict'] == 'holds' and st['reached'] == 0:
-        res['verdict'] = 'error'; res['inconclusive'] = 'vacuous: no feasible path reached an assertion'
     # replay each distinct counterexample against the real code without proxies
     seen = set()
     for v in ex.violations:
@@ -117,6 +115,16 @@ def _run_task(args):
     return res
 
 # -----------------------------------------------------------------------------------------
+def _split_task(args):
+    prop, oname, param, tier, seed, per = args
+    if per <= 1: return [(prop, oname, param, tier, seed, [])]
+    o = next(x for x in _load(prop) if x.name == oname)
+    try:
+        pres = discover_prefixes(lambda sym: o.fn(sym, **param), target=per)
+    except Exception:
+        pres = [[]]
+    return [(prop, oname, param, tier, seed, pre) for pre in pres]
+
 def load_known():
     p = os.path.join(HERE, 'known_findings.json')
     if not os.path.exists(p): return []
@@ -160,24 +168,31 @@ def main():
     obls = _load(prop)
     if not obls:
         print(f"no obligations registered for {prop}"); sys.exit(2)
-    tasks = []
+    pre_tasks = []
     for o in obls:
         if a.only and a.only not in o.name: continue
         ps = o.params(a.tier)
         per = min(64, max(6, a.split // max(1,len(ps))))
         for p in ps:
-            if o.raw or per == 1:
-                tasks.append((prop, o.name, p, a.tier, seed, []))
-            else:
-                for pre in discover_prefixes(lambda sym: o.fn(sym, **p), target=per):
-                    tasks.append((prop, o.name, p, a.tier, seed, pre))
+            pre_tasks.append((prop, o.name, p, a.tier, seed, 1 if o.raw else per))
     ctx = mp.get_context('fork')
-    with ctx.Pool(min(a.jobs, max(1,len(tasks)))) as pool:
+    with ctx.Pool(min(a.jobs, max(1,len(pre_tasks)))) as pool:
+        split = pool.map(_split_task, pre_tasks, chunksize=max(1,len(pre_tasks)//(a.jobs*8)))
+        tasks = [t for ts in split for t in ts]
         results = pool.map(_run_task, tasks, chunksize=1)
 
     if os.environ.get('VERIF_DEBUG'):
         for r in sorted(results, key=lambda r:-r.get('wall_s',0))[:15]:
             print('DEBUG', r['obligation'], r['param'], r['verdict'], 'paths',r['paths'],'queries',r['queries'],'wall',r.get('wall_s'))
+    # vacuity guard (reachability twin): every (obligation,param) must have a feasible path reaching an assertion
+    reach = {}
+    for r in results:
+        k = (r['obligation'], json.dumps(r['param'],sort_keys=True))
+        reach[k] = reach.get(k,0) + r.get('reached',0) + (1 if r['verdict'] in ('inconclusive','error') or r.get('raw_ok') else 0)
+    for r in results:
+        k = (r['obligation'], json.dumps(r['param'],sort_keys=True))
+        if reach[k] == 0 and r['verdict'] == 'holds':
+            r['verdict'] = 'error'; r['inconclusive'] = 'vacuous: no feasible path reached an assertion'; reach[k] = -1
     known = load_known()
     os.makedirs(os.path.join(HERE,'replays'), exist_ok=True)
     lines, exit_code = [], 0
